@@ -1,5 +1,5 @@
 \* C06 design model with the audio port in every state (Btdmp::GetMaxSkip / Skip inside CoreTiming::Skip)
-CONSTANTS TB = 2  N = 5  FixPending = TRUE  FixSkipZero = TRUE  Family = "audio"  FixAudioSkip = TRUE
+CONSTANTS TB = 2  N = 5  FixPending = TRUE  FixSkipZero = TRUE  Family = "audio"  FixAudioSkip = TRUE  GuardSeesVectored = TRUE
 INIT Init
 NEXT Next
 INVARIANT SlicingInvariant
